@@ -1,5 +1,6 @@
 import QuantemModel.Props.C16
 import QuantemModel.Model.PtychoOpsExt2
+import QuantemModel.Generated.PtychoKernels
 /-!
 C16, growth round 6 — **propagator stacks and composed integer shifts.**
 
@@ -241,5 +242,43 @@ theorem translation_opt_unit_add (pre : List ℕ) (nr nc : ℕ) (e e' : Bool) (r
               (translationOperatorOpt (pre ++ [nr, nc]) e' r' c').2 := by
   simp only [translation_opt_values]
   exact ⟨translation_unit_modulus nr nc r c, translation_add nr nc r c r' c'⟩
+
+/-! ## 6. the traced source of `fourier_translation_operator` is the model
+
+`Generated/PtychoKernels.lean` is rewritten on every run by harness/translator/ptychokernel2lean.py, which CALLS the
+current `fourier_translation_operator` on symbolic positions and records, per pixel, the frequency numerators of the
+phasor it returns.  If the source changes its formula, the tables change and the theorems below stop proving. -/
+
+open QuantemModel.Generated.PtychoKernels in
+/-- the traced frequency tables are the `fftfreq` tables of the model (odd / even, both orientations, axes 1 and 2) -/
+theorem generated_table_eq_model :
+    rampTable_3_4 = freqTable 3 4 ∧ rampTable_4_3 = freqTable 4 3
+      ∧ rampTable_2_5 = freqTable 2 5 ∧ rampTable_1_2 = freqTable 1 2 := by
+  decide
+
+/-- the ramp of the model's own frequency table is the model's translation operator, every size -/
+theorem rampOfTable_freqTable (nr nc : ℕ) (r c : ℝ) :
+    rampOfTable nr nc (freqTable nr nc) r c = translationOperator nr nc r c := by
+  simp [rampOfTable, freqTable, translationOperator, rampAxis, List.map_map, Function.comp_def]
+
+open QuantemModel.Generated.PtychoKernels in
+/-- **generated_eq_model**: what the current source computes (as traced) is the modelled translation operator,
+for ALL positions, on each traced shape — so `translation_unit_modulus`, `translation_add`, `shift_*` are theorems
+about the formula the source contains now. -/
+theorem generated_eq_model (r c : ℝ) :
+    rampOfTable 3 4 rampTable_3_4 r c = translationOperator 3 4 r c
+      ∧ rampOfTable 4 3 rampTable_4_3 r c = translationOperator 4 3 r c
+      ∧ rampOfTable 2 5 rampTable_2_5 r c = translationOperator 2 5 r c
+      ∧ rampOfTable 1 2 rampTable_1_2 r c = translationOperator 1 2 r c := by
+  obtain ⟨h1, h2, h3, h4⟩ := generated_table_eq_model
+  rw [h1, h2, h3, h4]
+  exact ⟨rampOfTable_freqTable .., rampOfTable_freqTable .., rampOfTable_freqTable .., rampOfTable_freqTable ..⟩
+
+open QuantemModel.Generated.PtychoKernels in
+/-- the unit axes the traced calls inserted are those of the option model -/
+theorem generated_axes_eq_model :
+    extraAxes_3_true = translationExtraAxes 3 true ∧ extraAxes_3_false = translationExtraAxes 3 false
+      ∧ extraAxes_4_true = translationExtraAxes 4 true := by
+  decide
 
 end QuantemModel.Props.C16
